@@ -311,6 +311,21 @@ def event_world(seed, twins=True):
                 rseq = s1 + "".join(flip.get(c_.upper(), "A") if i_ in (1, 3, 4) else c_ for i_, c_ in enumerate(s2)) + s3
                 cls = "tiny-exon-between-overlapping-introns:mismatches"
             w.reads.append(Read(w.new_read_name("tiny"), chrom, b1[0] - 1, cigar, rseq, flag=0, mapq=60, tags=[], truth={"src": gid, "class": cls}))
+        # a terminal read exon of 3..6 bases (with a deleted base) lying INSIDE an annotated intron, flush with its outer site: moving the read's
+        # splice site onto the annotated one would leave an empty exon (the shift equals the exon length exactly), so the site must stay
+        for L in (3, 4, 5, 6):
+            a0 = p0 + 401                                           # first base of t1's intron
+            tail = (p0 + 907, p0 + 1900 - 7 * L)
+            cigar = [(0, 1), (2, 1), (0, L - 2), (3, 506 - L), (0, tail[1] - tail[0] + 1)]
+            rseq = seq[a0 - 1] + "".join(seq[a0 + 1:a0 + L - 1]) + "".join(seq[tail[0] - 1:tail[1]])
+            w.reads.append(Read(w.new_read_name("tinyfirst"), chrom, a0 - 1, cigar, rseq, flag=0, mapq=60, tags=[],
+                                truth={"src": gid + ".t1", "class": "terminal-exon-as-long-as-the-shift:first"}))
+            b1_ = p0 + 1400                                         # last base of t2's intron
+            head = (p0 + 7 * L, p0 + 900)
+            cigar = [(0, head[1] - head[0] + 1), (3, 500 - L), (0, L - 2), (2, 1), (0, 1)]
+            rseq = "".join(seq[head[0] - 1:head[1]]) + "".join(seq[b1_ - L:b1_ - 2]) + seq[b1_ - 1]
+            w.reads.append(Read(w.new_read_name("tinylast"), chrom, head[0] - 1, cigar, rseq, flag=0, mapq=60, tags=[],
+                                truth={"src": gid + ".t2", "class": "terminal-exon-as-long-as-the-shift:last"}))
     # twin introns 2-6 bp apart at one boundary (never the first intron of the gene): a read junction between them is within
     # the tolerance of BOTH annotated introns
     if twins:
